@@ -221,9 +221,28 @@ func (rt *runtime) panicRangeError(argumentList ...interface{}) *exception {
 	}
 }
 
+// interruptPanic carries a panic raised by a function received on the
+// Interrupt channel past the try/catch of the running script.
+type interruptPanic struct {
+	value interface{}
+}
+
+// runInterrupt calls a function received on the Interrupt channel.
+func runInterrupt(function func()) {
+	defer func() {
+		if caught := recover(); caught != nil {
+			panic(interruptPanic{caught})
+		}
+	}()
+	function()
+}
+
 func catchPanic(function func()) (err error) {
 	defer func() {
 		if caught := recover(); caught != nil {
+			if interrupt, ok := caught.(interruptPanic); ok {
+				panic(interrupt.value)
+			}
 			if excep, ok := caught.(*exception); ok {
 				caught = excep.eject()
 			}
